@@ -161,6 +161,40 @@ class BoundedOs:
         return self._os.urandom(n)
 
 
+class LineBudget:
+    """run a block of the code under test with a bound on the number of source lines it may execute in the kex
+    modules (sys.settrace in this thread): a loop that never ends becomes a `Hang` exception instead of a hung
+    harness.  Ordinary runs execute a few hundred lines."""
+
+    def __init__(self, limit=400000):
+        self.limit, self.count = limit, 0
+
+    def _trace(self, frame, event, arg):
+        if "kex_" not in frame.f_code.co_filename:
+            return None
+        return self._local
+
+    def _local(self, frame, event, arg):
+        if event == "line":
+            self.count += 1
+            if self.count > self.limit:
+                raise Hang("more than %d lines executed in %s" % (self.limit, frame.f_code.co_name))
+        return self._local
+
+    def __enter__(self):
+        import sys
+
+        self._old = sys.gettrace()
+        sys.settrace(self._trace)
+        return self
+
+    def __exit__(self, *a):
+        import sys
+
+        sys.settrace(self._old)
+        return False
+
+
 class FakeKey:
     def __init__(self, blob, algo):
         self.blob, self.algo = blob, algo
@@ -200,6 +234,7 @@ class FakeTransport:
         self.K = self.H = None
         self.session_id = sc.get("sid")  # a re-exchange: the session id of the first exchange is already set
         self.host_key = FakeKey(sc["hk0"], sc["algo"]) if sc.get("hk0") else None  # key of an earlier exchange
+        self.initial_kex_done = sc.get("sid") is not None  # a re-exchange: the first one is long done
         self.authenticated = bool(sc.get("authed"))  # exchanges happen before and after user authentication
         self.active = True
         self.in_kex = True
@@ -344,7 +379,7 @@ def run_scenario(sc):
             mod = m_gex if fam == "gex" else m_g1
 
             def gen():
-                with patched(mod, os=BoundedOs(20000)):
+                with patched(mod, os=BoundedOs(20000)), LineBudget():
                     real_gen()
                 eng.x = draw["x"]
 
